@@ -9,6 +9,7 @@ import (
 	"path/filepath"
 	"regexp"
 	"sort"
+	"strconv"
 	"strings"
 )
 
@@ -29,7 +30,9 @@ type typedInfo struct {
 func glueTyped(dir string) (*typedInfo, error) {
 	fset := token.NewFileSet()
 	type method struct{ name, params, results, call string }
-	var handler, source []method
+	var handler, source, whHandler []method
+	whOps := map[string]string{} // webhook operation -> webhook name (from the generated router)
+	hasWHServer, hasWHClient, whServerSec, whClientSec := false, false, false, false
 	var newErrorSig string
 	ifaces := map[string]string{}  // marker method -> interface name
 	impls := map[string][]string{} // marker method -> receiver type expressions
@@ -64,6 +67,22 @@ func glueTyped(dir string) (*typedInfo, error) {
 							}
 						}
 					}
+					if x.Name.Name == "NewWebhookServer" {
+						hasWHServer = true
+						for _, p := range x.Type.Params.List {
+							if id, ok := p.Type.(*ast.Ident); ok && id.Name == "SecurityHandler" {
+								whServerSec = true
+							}
+						}
+					}
+					if x.Name.Name == "NewWebhookClient" {
+						hasWHClient = true
+						for _, p := range x.Type.Params.List {
+							if id, ok := p.Type.(*ast.Ident); ok && id.Name == "SecuritySource" {
+								whClientSec = true
+							}
+						}
+					}
 					if x.Name.Name == "NewServer" {
 						for _, p := range x.Type.Params.List {
 							if id, ok := p.Type.(*ast.Ident); ok && id.Name == "SecurityHandler" {
@@ -72,6 +91,37 @@ func glueTyped(dir string) (*typedInfo, error) {
 						}
 					}
 					continue
+				}
+				if x.Name.Name == "Handle" && x.Body != nil && strings.Contains(text(x.Recv.List[0].Type), "WebhookServer") {
+					ast.Inspect(x.Body, func(n ast.Node) bool {
+						cc, ok := n.(*ast.CaseClause)
+						if !ok || len(cc.List) != 1 {
+							return true
+						}
+						lit, ok := cc.List[0].(*ast.BasicLit)
+						if !ok || lit.Kind != token.STRING {
+							return true
+						}
+						name, err := strconv.Unquote(lit.Value)
+						if err != nil {
+							return true
+						}
+						// the outer cases are webhook names; the calls below them name the operations
+						for _, st := range cc.Body {
+							ast.Inspect(st, func(m ast.Node) bool {
+								if ce, ok := m.(*ast.CallExpr); ok {
+									if se, ok := ce.Fun.(*ast.SelectorExpr); ok && strings.HasPrefix(se.Sel.Name, "handle") && strings.HasSuffix(se.Sel.Name, "Request") {
+										op := strings.TrimSuffix(strings.TrimPrefix(se.Sel.Name, "handle"), "Request")
+										if _, seen := whOps[op]; !seen {
+											whOps[op] = name
+										}
+									}
+								}
+								return true
+							})
+						}
+						return false
+					})
 				}
 				if ast.IsExported(x.Name.Name) || x.Type.Params.NumFields() != 0 || x.Type.Results.NumFields() != 0 || x.Body == nil || len(x.Body.List) != 0 || len(x.Recv.List) != 1 {
 					continue
@@ -90,7 +140,7 @@ func glueTyped(dir string) (*typedInfo, error) {
 					if len(it.Methods.List) == 1 && len(it.Methods.List[0].Names) == 1 && !ast.IsExported(it.Methods.List[0].Names[0].Name) {
 						ifaces[it.Methods.List[0].Names[0].Name] = ts.Name.Name
 					}
-					if ts.Name.Name != "Handler" && ts.Name.Name != "SecuritySource" {
+					if ts.Name.Name != "Handler" && ts.Name.Name != "SecuritySource" && ts.Name.Name != "WebhookHandler" {
 						continue
 					}
 					for _, im := range f.Imports {
@@ -121,6 +171,10 @@ func glueTyped(dir string) (*typedInfo, error) {
 						}
 						if ts.Name.Name == "SecuritySource" {
 							source = append(source, mm)
+						} else if ts.Name.Name == "WebhookHandler" {
+							if mm.name != "NewError" {
+								whHandler = append(whHandler, mm)
+							}
 						} else if mm.name == "NewError" {
 							newErrorSig = mm.params + " " + mm.results
 						} else {
@@ -137,27 +191,47 @@ func glueTyped(dir string) (*typedInfo, error) {
 	var sb strings.Builder
 	sb.WriteString("type simTyped struct {\n\tcb func(ctx context.Context, op string, args []any, res any) error\n\tne func(ctx context.Context, err error, res any)\n}\n\n")
 	info := &typedInfo{}
+	emit := func(recv string, ms []method) error {
+		for _, m := range ms {
+			// arguments after ctx
+			args := strings.TrimPrefix(m.call, "ctx")
+			args = strings.TrimPrefix(args, ", ")
+			res := strings.TrimSpace(m.results)
+			if res == "error" {
+				fmt.Fprintf(&sb, "func (h *%s) %s%s error {\n\treturn h.cb(ctx, %q, []any{%s}, nil)\n}\n\n", recv, m.name, m.params, m.name, args)
+				continue
+			}
+			// "(T, error)"
+			inner := strings.TrimSuffix(strings.TrimPrefix(res, "("), ")")
+			i := strings.LastIndex(inner, ",")
+			if i < 0 {
+				return fmt.Errorf("typed glue: cannot read results %q of %s", res, m.name)
+			}
+			rt := strings.TrimSpace(inner[:i])
+			if sp := strings.IndexByte(rt, ' '); sp >= 0 && !strings.ContainsAny(rt[:sp], "[]*.") {
+				rt = strings.TrimSpace(rt[sp+1:]) // named result
+			}
+			fmt.Fprintf(&sb, "func (h *%s) %s%s %s {\n\tvar simRes %s\n\tsimErr := h.cb(ctx, %q, []any{%s}, &simRes)\n\treturn simRes, simErr\n}\n\n", recv, m.name, m.params, res, rt, m.name, args)
+		}
+		return nil
+	}
 	for _, m := range handler {
 		info.Ops = append(info.Ops, m.name)
-		// arguments after ctx
-		args := strings.TrimPrefix(m.call, "ctx")
-		args = strings.TrimPrefix(args, ", ")
-		res := strings.TrimSpace(m.results)
-		if res == "error" {
-			fmt.Fprintf(&sb, "func (h *simTyped) %s%s error {\n\treturn h.cb(ctx, %q, []any{%s}, nil)\n}\n\n", m.name, m.params, m.name, args)
-			continue
+	}
+	if err := emit("simTyped", handler); err != nil {
+		return nil, err
+	}
+	withWH := hasWHServer && hasWHClient && len(whHandler) > 0
+	if withWH {
+		sb.WriteString("type simTypedWH struct {\n\tcb func(ctx context.Context, op string, args []any, res any) error\n}\n\n")
+		if err := emit("simTypedWH", whHandler); err != nil {
+			return nil, err
 		}
-		// "(T, error)"
-		inner := strings.TrimSuffix(strings.TrimPrefix(res, "("), ")")
-		i := strings.LastIndex(inner, ",")
-		if i < 0 {
-			return nil, fmt.Errorf("typed glue: cannot read results %q of %s", res, m.name)
+		for _, m := range whHandler {
+			if whOps[m.name] != "" {
+				info.Ops = append(info.Ops, "~"+m.name) // "~": a webhook operation
+			}
 		}
-		rt := strings.TrimSpace(inner[:i])
-		if sp := strings.IndexByte(rt, ' '); sp >= 0 && !strings.ContainsAny(rt[:sp], "[]*.") {
-			rt = strings.TrimSpace(rt[sp+1:]) // named result
-		}
-		fmt.Fprintf(&sb, "func (h *simTyped) %s%s %s {\n\tvar simRes %s\n\tsimErr := h.cb(ctx, %q, []any{%s}, &simRes)\n\treturn simRes, simErr\n}\n\n", m.name, m.params, res, rt, m.name, args)
 	}
 	if newErrorSig != "" {
 		// NewError(ctx context.Context, err error) *ErrorStatusCode
@@ -184,7 +258,19 @@ func glueTyped(dir string) (*typedInfo, error) {
 			fmt.Fprintf(&sb, "func (s simSrc) %s%s %s {\n\tvar simRes %s\n\ts.fill(&simRes)\n\treturn simRes, nil\n}\n\n", m.name, m.params, m.results, strings.TrimSpace(inner[:i]))
 		}
 	}
-	sb.WriteString("// SimOps lists the operations (Handler methods).\nvar SimOps = []string{")
+	sb.WriteString("// SimWebhooks maps a webhook operation to the webhook it belongs to.\nvar SimWebhooks = map[string]string{")
+	if withWH {
+		var ks []string
+		for k := range whOps {
+			ks = append(ks, k)
+		}
+		sort.Strings(ks)
+		for _, k := range ks {
+			fmt.Fprintf(&sb, "%q: %q, ", k, whOps[k])
+		}
+	}
+	sb.WriteString("}\n\n")
+	sb.WriteString("// SimOps lists the operations (Handler methods; webhook operations carry a ~).\nvar SimOps = []string{")
 	for _, op := range info.Ops {
 		fmt.Fprintf(&sb, "%q, ", op)
 	}
@@ -206,19 +292,36 @@ func glueTyped(dir string) (*typedInfo, error) {
 		sb.WriteString("},\n")
 	}
 	sb.WriteString("}\n\n")
-	sb.WriteString("// SimTypedNew builds one server and one client around the callbacks.\nfunc SimTypedNew(cb func(ctx context.Context, op string, args []any, res any) error, ne func(ctx context.Context, err error, res any), fill func(any), hc ht.Client, mws ...middleware.Middleware) (http.Handler, any, error) {\n")
+	sb.WriteString("// SimTypedNew builds one server and one client (and the webhook pair, if any) around the callbacks.\nfunc SimTypedNew(cb func(ctx context.Context, op string, args []any, res any) error, ne func(ctx context.Context, err error, res any), fill func(any), hc ht.Client, mws ...middleware.Middleware) (http.Handler, any, any, error) {\n")
 	if serverSec {
 		sb.WriteString("\tsrv, err := NewServer(&simTyped{cb: cb, ne: ne}, simSec{}, WithMiddleware(mws...))\n")
 	} else {
 		sb.WriteString("\tsrv, err := NewServer(&simTyped{cb: cb, ne: ne}, WithMiddleware(mws...))\n")
 	}
-	sb.WriteString("\tif err != nil {\n\t\treturn nil, nil, err\n\t}\n")
+	sb.WriteString("\tif err != nil {\n\t\treturn nil, nil, nil, err\n\t}\n")
 	if clientSec {
 		sb.WriteString("\tcl, err := NewClient(\"http://sim.test\", simSrc{fill: fill}, WithClient(hc))\n")
 	} else {
 		sb.WriteString("\tcl, err := NewClient(\"http://sim.test\", WithClient(hc))\n")
 	}
-	sb.WriteString("\tif err != nil {\n\t\treturn nil, nil, err\n\t}\n\treturn srv, cl, nil\n}\n")
+	sb.WriteString("\tif err != nil {\n\t\treturn nil, nil, nil, err\n\t}\n")
+	if withWH {
+		if whServerSec {
+			sb.WriteString("\twhs, err := NewWebhookServer(&simTypedWH{cb: cb}, simSec{}, WithMiddleware(mws...))\n")
+		} else {
+			sb.WriteString("\twhs, err := NewWebhookServer(&simTypedWH{cb: cb}, WithMiddleware(mws...))\n")
+		}
+		sb.WriteString("\tif err != nil {\n\t\treturn nil, nil, nil, err\n\t}\n")
+		if whClientSec {
+			sb.WriteString("\twhc, err := NewWebhookClient(simSrc{fill: fill}, WithClient(hc))\n")
+		} else {
+			sb.WriteString("\twhc, err := NewWebhookClient(WithClient(hc))\n")
+		}
+		sb.WriteString("\tif err != nil {\n\t\treturn nil, nil, nil, err\n\t}\n")
+		sb.WriteString("\tmux := http.HandlerFunc(func(w http.ResponseWriter, r *http.Request) {\n\t\tconst p = \"/__wh/\"\n\t\tif len(r.URL.Path) > len(p) && r.URL.Path[:len(p)] == p {\n\t\t\twhs.Handler(r.URL.Path[len(p):]).ServeHTTP(w, r)\n\t\t\treturn\n\t\t}\n\t\tsrv.ServeHTTP(w, r)\n\t})\n\treturn mux, cl, whc, nil\n}\n")
+	} else {
+		sb.WriteString("\treturn srv, cl, nil, nil\n}\n")
+	}
 	body := sb.String()
 	var hd strings.Builder
 	hd.WriteString("// Written by the verification framework's corpus driver; not generated by ogen.\n\npackage api\n\nimport (\n\t\"context\"\n\t\"net/http\"\n\t\"reflect\"\n\n\tht \"github.com/ogen-go/ogen/http\"\n\t\"github.com/ogen-go/ogen/middleware\"\n")
